@@ -21,8 +21,9 @@ NAMES = ["a.txt", "b.txt", "n.txt", "d1", "d1/x.txt", "d1/sub", "d2", "new/dir/f
 H_FILES = ['q"uote.txt', 'back\\slash.txt', 'new\nline', 'tab\there.txt', 'sp ace ', ' lead', 'ünï/日本/🙂.bin', '%25pct%', 'x' * 180,
            'ctl\x01\x1f', 'd"q/in"ner/f\\g', "it's", 'a.txt']
 H_NAMES = ['q"uote.txt', 'dst"q', 'back\\slash.txt', 'n\nl/x', 'sp ace /y ', '🙂/😀', 'd"q', 'ctl\x02', 'plain', 'd"q/in"ner']
-H_IDS = ['ob"j', 'back\\slash', 'new\nline', ' padded ', '\u00a0nbsp\u3000', 'ünï:日本:🙂', 'urn:x:"q"\\', 'x' * 300, 'tab\tid', 'ctl\x01id', 'a/b', '%2e%2e']
-H_META = ['quo"te', 'back\\slash', 'multi\nline\ttab', '🙂 non-BMP', '  spaces  ', 'ctl\x00\x1f', 'y' * 500]
+H_IDS = ['ob"j', 'back\\slash', 'new\nline', ' padded ', '\u00a0nbsp\u3000', 'ünï:日本:🙂', 'urn:x:"q"\\', 'x' * 300, 'tab\tid', 'ctl\x01id', 'a/b', '%2e%2e',
+         'urn:long:' + 'L' * 4200, 'urn:é:' + 'é' * 2100]
+H_META = ['quo"te', 'back\\slash', 'multi\nline\ttab', '🙂 non-BMP', '  spaces  ', 'ctl\x00\x1f', 'y' * 500, 'é' * 3000, 'a' + 'é' * 3000, 'z' * 9000]
 USERS = ["me", "Ann Onymous", "ü ser"]
 ADDRS = ["mailto:me@example.org", "https://example.org/u/1", None]
 
